@@ -68,7 +68,7 @@ OtherClass ==
      two_files_fail_annotate |-> "valid", three_files_fail_annotate |-> "valid",   \* nothing wrong with the configuration
      gitmodules_empty_path |-> "valid", gitmodules_not_utf8 |-> "valid",           \* odd bytes in what Git reports: not a
      ignored_name_not_utf8 |-> "valid", covered_name_not_utf8 |-> "valid",         \* configuration error, never a traceback
-     dot_license_is_fifo |-> "valid", covered_expression_parens |-> "valid", toml_glob_run |-> "valid",
+     covered_gone_after_listing |-> "valid", dot_license_is_fifo |-> "valid", covered_expression_parens |-> "valid", toml_glob_run |-> "valid",
      toml_expression_parens |-> "invalid", template_not_utf8 |-> "grey",
      repository_test |-> "grey" ]     \* inputs of the repository's own tests: only the exit-status discipline is demanded
 
